@@ -71,7 +71,10 @@ Definition lres_eqb (l : lresult) (o : obs) : bool :=
   | _, _ => false
   end.
 
-Record case := { c_in : v2root; c_exit : obs; c_out : option yv; c_load : option obs }.
+(* [c_badre]: the strings of the case that Go's regexp.Compile refuses (asked through
+   harness/go/drv_regex for every string of the trees involved) *)
+Record case := { c_in : v2root; c_exit : obs; c_out : option yv; c_load : option obs; c_badre : list str }.
+Definition re_of (bad : list str) (s : str) : bool := negb (smem s bad).
 
 (* known-finding classes the input belongs to (authoritative for the classification) *)
 Definition guards (c : case) : bool := negb (v2_merge_free (c_in c)).
@@ -83,7 +86,7 @@ Definition check_case (c : case) : nat :=
   | MOk t, OOk, Some o =>
     if negb (yv_eqb t o) then 1                                    (* written tree *)
     else match c_load c with
-         | Some l => if lres_eqb (load o) l then 0 else 2          (* loader verdict on it *)
+         | Some l => if lres_eqb (load (re_of (c_badre c)) o) l then 0 else 2          (* loader verdict on it *)
          | None => 0
          end
   | MOk _, _, _ => 3                                               (* exit class / file presence *)
@@ -102,7 +105,7 @@ Definition mismatches := mismatches_from 0.
 Definition diff (a b : list (path * yv)) := filter (fun e => negb (existsb (entry_eqb e) b)) a.
 Definition explain (c : case) :=
   match migrate (c_in c), c_out c with
-  | MOk t, Some o => (check_case c, diff (flatten t) (flatten o), diff (flatten o) (flatten t), Some (load o))
+  | MOk t, Some o => (check_case c, diff (flatten t) (flatten o), diff (flatten o) (flatten t), Some (load (re_of (c_badre c)) o))
   | MOk t, None => (check_case c, flatten t, [], None)
   | MDecodeErr, _ => (check_case c, [], [], None)
   end.
@@ -117,7 +120,7 @@ Definition check_wcase (c : case) : bool :=
     match reread t, c_out c with
     | Some t', Some o =>
       yv_eqb t' o &&
-      match c_load c with Some l => lres_eqb (load t') l | None => false end
+      match c_load c with Some l => lres_eqb (load (re_of (c_badre c)) t') l | None => false end
     | None, None => match c_load c with Some OErr => true | _ => false end
     | _, _ => false
     end
@@ -130,8 +133,8 @@ Fixpoint wmismatches_from (i : nat) (cs : list case) : list nat :=
   end.
 Definition wmismatches := wmismatches_from 0.
 
-Record lcase := { l_tree : yv; l_obs : obs }.
-Definition check_lcase (c : lcase) : bool := lres_eqb (load (l_tree c)) (l_obs c).
+Record lcase := { l_tree : yv; l_obs : obs; l_badre : list str }.
+Definition check_lcase (c : lcase) : bool := lres_eqb (load (re_of (l_badre c)) (l_tree c)) (l_obs c).
 Fixpoint lmismatches_from (i : nat) (cs : list lcase) : list nat :=
   match cs with
   | [] => []
